@@ -546,6 +546,12 @@ def canon_group(args):
                                     e['ck'] = dict((h, fm.digest(h, data)) for h in e['ck'])
                                 except OSError:
                                     pass
+                            # ... and the order of the checksums within a line (the written line has them
+                            # sorted by name whatever the previous line looked like)
+                            if len(e.get('ck') or {}) > 1 and not e.get('ckl'):
+                                pairs = [[h, e['ck'][h]] for h in e['ck']]
+                                vr.shuffle(pairs)
+                                e['ckl'] = pairs
                         with open(fp, 'wb') as f:
                             f.write(fm.manifest_bytes(ents, fm.compression_of(mp)))
                 pre = raw_snapshot(dst)
@@ -873,6 +879,18 @@ def self_above(args):
         if lmf:
             L.mf[mmf].append({'tag': 'MANIFEST', 'path': L.rel(lmf, mmf), 'size': 0, 'ck': {'SHA256': ''}, 'ref': lmf})
         L.mf['Manifest'].append({'tag': 'MANIFEST', 'path': mmf, 'size': 0, 'ck': {'SHA256': ''}, 'ref': mmf})
+        if rng.random() < 0.4:
+            # a second Manifest in the middle directory, referenced from the top-level one as well - and that
+            # reference is stale: every entry on the chain above the updated directory has to be refreshed
+            xmf = mid + '/Manifest.extra'
+            L.files[mid + '/extra.txt'] = b'extra'
+            L.mf[xmf] = []
+            L.add_file_entry(xmf, mid + '/extra.txt', b'extra', 'DATA', hs)
+            stale = {'tag': 'MANIFEST', 'path': xmf, 'size': 1, 'ck': {'SHA1': '00' * 20}}
+            if rng.random() < 0.5:
+                L.mf['Manifest'].append(stale)
+            else:
+                L.mf['Manifest'].insert(0, stale)
         # the entry of the middle Manifest for itself
         b = os.path.basename(mmf)
         L.mf[mmf].append(rng.choice([
